@@ -179,6 +179,7 @@ struct Snap {                               // process residue snapshot
     long lib_live_allocs = 0, lib_live_bytes = 0;
     uint64_t env_sum = 0; std::string cwd; unsigned umask_v = 0; uint64_t sig_sum = 0;
     std::string locale;                     // setlocale(LC_ALL, NULL): the caller's locale is its state too
+    int stream_locks = 0;                   // bit 0/1: the lock of the caller's stdout/stderr stream is held by somebody
 };
 
 struct ExecObs {                            // everything observed about one wrapped call
